@@ -15,7 +15,10 @@ use zkabacus_crypto as za;
 
 pub struct C02;
 
-pub const VARIANTS: [&str; 40] = [
+pub const VARIANTS: [&str; 43] = [
+    "algebraic-token-forgery",
+    "close-foreign-channel-id",
+    "state-foreign-channel-id",
     "adaptive-digit-response-customer",
     "adaptive-digit-response-merchant",
     "extra-digit-proofs",
@@ -327,6 +330,27 @@ pub fn run_case(o: &mut Outcome, case: &Value) {
             h.new_st[0] += Scalar::one();
             h.new_cl[0] += Scalar::one();
             knobs.unlink = if s.chance(1, 2) { Some("id-state") } else { None };
+        }
+        "close-foreign-channel-id" => {
+            // only ONE of the two new messages carries another channel id
+            h.new_cl[0] += Scalar::one() + Scalar::from(s.below(1000));
+        }
+        "state-foreign-channel-id" => {
+            h.new_st[0] += Scalar::one() + Scalar::from(s.below(1000));
+        }
+        "algebraic-token-forgery" => {
+            // the customer holds two merchant signatures on messages that differ in one slot only
+            // (pay token: nonce, closing signature: close tag). If the merchant signed both with the
+            // same exponent u, their difference gives Y_1^u and with it a token on the same state
+            // under ANY nonce: the state is spent again under a nonce the merchant never signed.
+            // (With independent exponents the derived element is noise and the token is refused.)
+            let n2 = refc::rand_scalar(&mut s);
+            let dn = rc.state[1] - refc::close_tag();
+            let inv: Option<Scalar> = dn.invert().into();
+            let y1u = (rc.token.1 - rc.close_sig.1) * inv.unwrap_or(Scalar::one());
+            token = (rc.token.0, rc.token.1 + y1u * (n2 - rc.state[1]));
+            h.old[1] = n2;
+            shown = n2;
         }
         "close-tag-replaced" => h.new_cl[1] = refc::rand_scalar(&mut s),
         "old-lock-mismatch-linked" => {
@@ -878,7 +902,7 @@ impl Prop for C02 {
         v
     }
     fn rule(&self) -> String {
-        "one case = one Byzantine customer session against the real merchant: raw establishment (so the actor knows every scalar), 0-2 honest raw payments to vary the history, one more honest raw payment as accept-the-truth control (closing signature must be on old-balance -/+ amount, a foreign revocation pair must be refused and the right one must complete it), then one variant of the false pay statement: wrong nonce, wrong amount on either balance, negative / above-range balance, foreign channel id, close tag replaced, old-lock commitment to another lock (linked and unlinked), new lock mismatch, token of another key / tampered / on a different state, digit signature for another digit, digits permuted, all-maximal digits, a digit signature fabricated from two published ones that share a base point (when the parameters allow it), 37 digit proofs instead of 9 (when the wire format has a length prefix there), close balance mismatch, sign-flipped amount; or post-challenge choice (probe -> hook -> adapt -> resubmit, up to three rounds) of the revealed nonce scalar (twice on one token: double spend), the close-tag scalar, T of the state / close / lock proof, C of the state / close proof, T of a digit proof (overspend), the response of ONE digit proof at each digit position of either balance (a negative balance whose other digit proofs are all valid). Distinct = distinct (variant, balances, amount, history, seed); non-trivial = an attack was run".into()
+        "one case = one Byzantine customer session against the real merchant: raw establishment (so the actor knows every scalar), 0-2 honest raw payments to vary the history, one more honest raw payment as accept-the-truth control (closing signature must be on old-balance -/+ amount, a foreign revocation pair must be refused and the right one must complete it), then one variant of the false pay statement: wrong nonce, a token for another nonce derived algebraically from the pay token and the closing signature of the same state (valid iff the merchant re-used its signing exponent), another channel id in only one of the two new messages, wrong amount on either balance, negative / above-range balance, foreign channel id, close tag replaced, old-lock commitment to another lock (linked and unlinked), new lock mismatch, token of another key / tampered / on a different state, digit signature for another digit, digits permuted, all-maximal digits, a digit signature fabricated from two published ones that share a base point (when the parameters allow it), 37 digit proofs instead of 9 (when the wire format has a length prefix there), close balance mismatch, sign-flipped amount; or post-challenge choice (probe -> hook -> adapt -> resubmit, up to three rounds) of the revealed nonce scalar (twice on one token: double spend), the close-tag scalar, T of the state / close / lock proof, C of the state / close proof, T of a digit proof (overspend), the response of ONE digit proof at each digit position of either balance (a negative balance whose other digit proofs are all valid). Distinct = distinct (variant, balances, amount, history, seed); non-trivial = an attack was run".into()
     }
     fn assumptions(&self) -> Vec<String> {
         vec![
